@@ -566,7 +566,13 @@ fn pool_worker_loop(pool: Arc<ThreadPool>, timeout: Option<Duration>) {
                     .task_wakeup
                     .wait_timeout(records, time_to_deadline)
                     .unwrap();
-                if wait_result.timed_out() {
+                if wait_result.timed_out() && records.queue.is_empty() {
+                    // Only give up if no task was queued while we were
+                    // timing out: a submitter that saw us counted in
+                    // available_workers may have enqueued a task (and
+                    // notified nobody) after the timeout fired but
+                    // before we re-acquired the mutex. Otherwise, fall
+                    // through to the queue check above and run it.
                     records.available_workers -= 1;
                     return;
                 } else {
